@@ -288,7 +288,7 @@ func runC18(r *mc.Run) {
 		r.SetBudget(170 * 1e9)
 	}
 	r.Bounds["depth_blocks"] = depth
-	r.Rule = "tree search over block histories of the real application producing pending / active / zero-power / jailed-path / tombstoned / exiting validators, pending and boarding voters (also several membership changes of a group of four queued between two elections), in-flight and cancelling withdrawals, non-empty queues, pending unlocks, voted hashes, credited deposits and bridge-parameter corners; in every visited state: ExportAppStateAndValidators -> InitChain on a fresh App must succeed, return the exported active set, re-export identically (per module), reproduce every module store (boarding queue as a multiset), answer every gRPC query of the goat modules and the auth account queries identically (every method, every argument denoting something in the state plus unknown ones, through the registered query routes), satisfy the ranking / set / group invariants, reproduce the same stores when initialised with a genesis time one hour later, and produce a block"
+	r.Rule = "tree search over block histories of the real application producing pending / active / zero-power / jailed-path / tombstoned / exiting validators, pending and boarding voters (also several membership changes of a group of four queued between two elections), in-flight and cancelling withdrawals (also two batches in flight that bitcoin confirms in either order), non-empty queues, pending unlocks, voted hashes, credited deposits and bridge-parameter corners; in every visited state: ExportAppStateAndValidators -> InitChain on a fresh App must succeed, return the exported active set, re-export identically (per module), reproduce every module store (boarding queue as a multiset), answer every gRPC query of the goat modules and the auth account queries identically (every method, every argument denoting something in the state plus unknown ones, through the registered query routes), satisfy the ranking / set / group invariants, reproduce the same stores when initialised with a genesis time one hour later, and produce a block"
 	r.Assumptions = []string{"the re-export reads the imported state through the finalize-state context right after InitChain (no block in between)"}
 	for _, rt := range c18Roots(r.Thorough()) {
 		rt := rt
@@ -299,6 +299,11 @@ func runC18(r *mc.Run) {
 				panic(err)
 			}
 			defer root.Close()
+			for _, b := range rt.Setup {
+				if rr := root.Run(b); rr.Err != nil {
+					panic(fmt.Sprintf("root %s setup: %v", rt.Name, rr.Err))
+				}
+			}
 			menu := rt.Menu
 			check := func(w *enga.World, path []enga.ABlock) {
 				for _, b := range c18RoundTrip(w) {
@@ -351,9 +356,10 @@ func runC18(r *mc.Run) {
 // c18Roots are the genesis configurations the histories start from: the general one, and a
 // relayer group of four whose membership changes pile up between two elections.
 type c18Root struct {
-	Name string
-	Cfg  func() *sim.GenesisCfg
-	Menu []enga.ABlock
+	Name  string
+	Cfg   func() *sim.GenesisCfg
+	Menu  []enga.ABlock
+	Setup []enga.ABlock // history executed before the exploration starts (a non-initial root)
 }
 
 func c18Roots(thorough bool) []c18Root {
@@ -366,7 +372,17 @@ func c18Roots(thorough bool) []c18Root {
 		ev(enga.Event{Kind: "req:removevoter", Var: "two"}),
 		{Dt: 7},
 	}
-	return []c18Root{{Name: "general", Cfg: c18Cfg, Menu: c18Menu(thorough)}, {Name: "relayer-group-of-4", Cfg: c18GroupCfg, Menu: group}}
+	// two withdrawal batches in flight; bitcoin may confirm them in either order
+	flight := []enga.ABlock{
+		ev(enga.Event{Kind: "tx:hashes", N: 1}, enga.Event{Kind: "tx:finalize", Var: "newest"}),
+		ev(enga.Event{Kind: "tx:hashes", N: 1}, enga.Event{Kind: "tx:finalize"}),
+		ev(enga.Event{Kind: "tx:replace"}),
+		ev(enga.Event{Kind: "req:withdraw", N: 1}),
+		ev(enga.Event{Kind: "tx:process", N: 1}),
+	}
+	flightSetup := []enga.ABlock{ev(enga.Event{Kind: "req:withdraw", N: 3}), ev(enga.Event{Kind: "tx:process", N: 1}), ev(enga.Event{Kind: "tx:process", N: 1})}
+	return []c18Root{{Name: "general", Cfg: c18Cfg, Menu: c18Menu(thorough)}, {Name: "relayer-group-of-4", Cfg: c18GroupCfg, Menu: group},
+		{Name: "two-batches-in-flight", Cfg: c18Cfg, Menu: flight, Setup: flightSetup}}
 }
 
 func c18RootCfg(name string) *sim.GenesisCfg {
@@ -374,6 +390,15 @@ func c18RootCfg(name string) *sim.GenesisCfg {
 		return c18GroupCfg()
 	}
 	return c18Cfg()
+}
+
+func c18RootSetup(name string) []enga.ABlock {
+	for _, rt := range c18Roots(true) {
+		if rt.Name == name {
+			return rt.Setup
+		}
+	}
+	return nil
 }
 
 func c18GroupCfg() *sim.GenesisCfg {
@@ -393,7 +418,7 @@ func replayC18(detail json.RawMessage) (bool, string) {
 		return false, err.Error()
 	}
 	defer w.Close()
-	for _, b := range d.Path {
+	for _, b := range append(append([]enga.ABlock{}, c18RootSetup(d.Note)...), d.Path...) {
 		if rr := w.Run(b); rr.Err != nil {
 			return false, "history not executable: " + rr.Err.Error()
 		}
